@@ -166,14 +166,20 @@ def r2_pairing(rep, facts):
     leak = [r for r in cfg.returns() if r in after]
     rep.check(R, 'exit-on-every-path', not leak and all(cfg.dominates(inner[0], e) for e in exit_), 'no path from the inner parser to the return avoids exit',
               'a path from the inner parser to the return skips exit(): the depth counter leaks (e.g. on a recovered backtrack) or is never restored', loc)
-    # enter failure leaves through a cut error before the inner parser (HIR: enter().map_err(|e| ...cut())?)
+    # a failed enter leaves through a cut (non-recoverable) error and never runs the inner parser: on the MIR, every path from the enter
+    # call to a return that avoids the inner parse_next passes through ErrMode::cut
+    cut = cfg.calls(lambda n: last_seg(n) == 'cut' and 'ErrMode' in n)
+    err_paths = cfg.reach_from_succ(enter, avoid=set(inner) | set(cut))
+    leak2 = [r for r in cfg.returns() if r in err_paths]
+    # the same through `enter().map_err(|e| ..cut())?` (the cut is then in the closure passed to map_err)
     hb = facts.body(P + 'prelude::check_recursion')
     okcut = False
     for n in walk(hb['body']):
         if n.get('k') == 'mcall' and n.get('name') == 'map_err' and peel(n['recv']).get('k') == 'mcall' and peel(n['recv']).get('name') == 'enter':
-            okcut = any(x.get('k') == 'mcall' and x.get('name') == 'cut' for x in walk(n['args'][0]))
-    rep.check(R, 'enter-error-is-cut', okcut, 'enter().map_err(|e| from_external_error(..).cut())?', 'a failed enter() is no longer turned into a cut (non-recoverable) error', loc)
-
+            okcut = any(x.get('k') == 'mcall' and x.get('name') == 'cut' for x in walk(n['args'][0])) and \
+                any(m.get('k') == 'match' and 'TryDesugar' in (m.get('src') or '') and any(y is n for y in walk(m)) for m in walk(hb['body']))
+    rep.check(R, 'enter-error-is-cut', okcut or (bool(cut) and not leak2), 'the failing path returns a cut error without running the inner parser',
+              'a failed enter() is no longer turned into a cut (non-recoverable) error (or the inner parser runs although the depth check failed)', loc)
 
 def r3_bound(rep, facts):
     R = rep.rule('C05/R3', 'the limit is a small constant, both comparisons reject at LIMIT <= depth, and the counter is written only in enter / exit', floor=4)
@@ -185,19 +191,40 @@ def r3_bound(rep, facts):
         rep.incomplete(R, 'LIMIT', str(e))
         return
     rep.check(R, 'LIMIT|value', 2 <= lim <= 128, f'LIMIT = {lim}', f'LIMIT = {lim} is outside 2..=128 (the stack bound relies on a small constant)')
-    for fn, var_kind in (('prelude::RecursionCheck::enter', 'field'), ('prelude::RecursionCheck::check_depth', 'param')):
-        b = facts.body(P + fn)
-        cmps = [n for n in walk(b['body']) if n.get('k') == 'binary' and n.get('op') in ('<', '<=', '>', '>=', '==', '!=')]
-        ok = False
-        for c in cmps:
-            a, bb = peel(c['a']), peel(c['b'])
-            lim_l = a.get('k') == 'path' and (a.get('path') or '').endswith('::LIMIT')
-            lim_r = bb.get('k') == 'path' and (bb.get('path') or '').endswith('::LIMIT')
-            if lim_l and c['op'] == '<=' or lim_r and c['op'] == '>=':
-                ok = True
-        errs = any(last_seg(n.get('path') or '') == 'RecursionLimitExceeded' for n in walk(b['body']) if n.get('k') == 'path')
-        rep.check(R, f'{fn}|comparison', ok and errs and len(cmps) == 1, 'if LIMIT <= depth { Err(RecursionLimitExceeded) }',
-                  f'`{fn}` does not reject exactly at LIMIT <= depth', facts.loc(b))
+    # both entry points of the counter, evaluated for every depth around the limit (whatever their syntactic form; `enter` may delegate to check_depth)
+    from .den import FxInterp
+    is_err = lambda r: isinstance(r, tuple) and r and r[0] == 'ctor' and r[1].endswith('Result::Err')
+    is_limit = lambda r: is_err(r) and 'RecursionLimitExceeded' in repr(r)
+    b = facts.body(P + 'prelude::RecursionCheck::check_depth')
+    try:
+        it = FxInterp(ev)
+        pn = [p['name'] for p in b.get('params', []) if p.get('k') == 'p_bind']
+        res = {d: it.run(b['body'], {pn[-1]: d}) for d in range(0, lim + 3)}
+        wrong = [d for d, r in res.items() if is_err(r) != (lim <= d) or (is_err(r) and not is_limit(r))]
+        rep.check(R, 'prelude::RecursionCheck::check_depth|comparison', not wrong, f'Err(RecursionLimitExceeded) exactly for depth >= {lim}',
+                  f'`check_depth` does not reject exactly at LIMIT <= depth: wrong verdict for depth {wrong[:5]}', facts.loc(b))
+    except Unanalysable as e:
+        rep.incomplete(R, 'prelude::RecursionCheck::check_depth|comparison', f'cannot evaluate: {e}', facts.loc(b))
+    b = facts.body(P + 'prelude::RecursionCheck::enter')
+    try:
+        pn = [p['name'] for p in b.get('params', []) if p.get('k') == 'p_bind']
+        wrong = []
+        for c in range(0, lim + 2):
+            it = FxInterp(ev)
+            env = {pn[0]: ('self',), '.current': c, '@assign': {}}
+            try:
+                r = it.val(b['body'], env)
+            except Exception as ex:   # Ret carries the early return
+                r = getattr(ex, 'v', None)
+                if r is None:
+                    raise
+            after = env.get('.current')
+            if after != c + 1 or is_err(r) != (lim <= c + 1) or (is_err(r) and not is_limit(r)):
+                wrong.append((c, after, 'Err' if is_err(r) else 'Ok'))
+        rep.check(R, 'prelude::RecursionCheck::enter|comparison', not wrong, f'current += 1, then Err(RecursionLimitExceeded) exactly when LIMIT <= current',
+                  f'`enter` does not count and reject at LIMIT <= depth: (current before, after, result) = {wrong[:4]}', facts.loc(b))
+    except Unanalysable as e:
+        rep.incomplete(R, 'prelude::RecursionCheck::enter|comparison', f'cannot evaluate: {e}', facts.loc(b))
     writers = []
     for d, b in facts.bodies.items():
         if not d.startswith('toml_edit::') and not d.startswith('<toml_edit::'):
